@@ -78,6 +78,8 @@ type Check struct {
 	// StateKeys: when set, evidence reports states/transitions (model-checking keys).
 	States  func() (states, transitions, traces int64)
 	Workers int
+	// HangLimit overrides the per-case watchdog limit (default 300 s).
+	HangLimit time.Duration
 }
 
 type Violation struct {
@@ -326,6 +328,9 @@ func run(c *Check, tier string) int {
 	// Watchdog: a single case running for more than hangLimit is reported as a
 	// hang (the cases take micro- to milliseconds; the limit is generous).
 	hangLimit := 300 * time.Second
+	if c.HangLimit > 0 {
+		hangLimit = c.HangLimit
+	}
 	stopWD := make(chan struct{})
 	go func() {
 		t := time.NewTicker(5 * time.Second)
